@@ -16,41 +16,44 @@ import sol_lexer as sl
 LOC_RE = re.compile(r'File\(0, (\d+), (\d+)\)')
 
 
-def map_dump(dump, smap, emap):
-    """rename the START of every location (a start is always the first byte of a token; an end may
-    be the end of the last token or the start of the next one, so ends are erased on both sides)"""
-    bad = []
-
-    def f(m):
-        s, e = int(m.group(1)), int(m.group(2))
-        if s == e:
-            # empty location: placed right after a token (e.g. name_loc of a constructor) or before one
-            t = emap.get(s, smap.get(s))
-        else:
-            t = smap.get(s)
-        if t is None:
-            bad.append((s, e))
-            return m.group(0)
-        return 'File(0, %d, _)' % t
-    return squeeze_pragma_values(LOC_RE.sub(f, dump)), bad
-
-
-PRAGMA_VALUE_RE = re.compile(r'(PragmaDirective\(File\(0, \d+, _\), Identifier \{ loc: File\(0, \d+, _\), name: "[^"]*" \}, '
-                             r'StringLiteral \{ loc: File\(0, \d+, _\), unicode: false, string: ")((?:[^"\\]|\\.)*)(")')
+RAW_PRAGMA_VALUE_RE = re.compile(r'(PragmaDirective\(File\(0, \d+, \d+\), Identifier \{ loc: File\(0, \d+, \d+\), name: "[^"]*" \}, '
+                                 r'StringLiteral \{ loc: File\(0, \d+, \d+\), unicode: false, string: ")((?:[^"\\]|\\.)*)(")')
 
 
 def squeeze_pragma_values(dump):
     """white space inside the raw value of a pragma directive is layout (the value is one token for the lexer)"""
     def f(m):
-        v = re.sub(r'\\[ntr]|\s', '', m.group(2))
-        return m.group(1) + v + m.group(3)
-    return PRAGMA_VALUE_RE.sub(f, dump)
+        return m.group(1) + re.sub(r'\\[ntr]|\s', '', m.group(2)) + m.group(3)
+    return RAW_PRAGMA_VALUE_RE.sub(f, dump)
 
 
-def erase_ends(dump, emap_rev_starts):
-    def f(m):
-        return 'File(0, %s, _)' % m.group(1)
-    return squeeze_pragma_values(LOC_RE.sub(f, dump))
+def dumps_related(d0, d1, smap, emap):
+    """is the Debug text d1 (re-laid-out source) the text d0 (original) with every location start renamed by smap?
+    Location ENDS are not compared (an end may be the end of the last token or the start of the next one); a location that
+    is EMPTY in the original (omitted tuple component, name location of a constructor, ...) is not compared at all: the
+    parser places it at the end of the previous or the start of the next token, or gives it the white space between them.
+    -> (ok, unmapped starts, context of the first difference)"""
+    p0 = LOC_RE.split(squeeze_pragma_values(d0))
+    p1 = LOC_RE.split(squeeze_pragma_values(d1))
+    bad = []
+    if len(p0) != len(p1):
+        return False, bad, {'different_number_of_locations': [len(p0) // 3, len(p1) // 3]}
+    for k in range(0, len(p0), 3):
+        if p0[k] != p1[k]:
+            return False, bad, {'original': p0[k][-160:], 'relayout': p1[k][-160:]}
+        if k + 2 < len(p0):
+            s0, e0, s1 = int(p0[k + 1]), int(p0[k + 2]), int(p1[k + 1])
+            if s0 == e0:
+                continue
+            t = smap.get(s0)
+            if t is None:
+                t = emap.get(s0)      # a location made of the white space after a token (name_loc of `constructor\n(`)
+            if t is None:
+                bad.append((s0, e0))
+            elif t != s1:
+                return False, bad, {'location_in_original': [s0, e0], 'renamed_start': t, 'start_in_relayout': s1,
+                                    'context': p0[k][-120:]}
+    return not bad, bad, None
 
 
 def line_of(src_bytes, off):
@@ -137,9 +140,9 @@ def run(rep, ctx):
             smap_f = lambda x: x
             emap_f = lambda x: x
         else:
-            mapped, bad = map_dump(r0['dump'], smap, emap)
-            if bad or mapped != erase_ends(r1['dump'], None):
-                parser_rel_fail.append((i0, i1, st, bad[:3]))
+            ok_rel, bad, diff = dumps_related(r0['dump'], r1['dump'], smap, emap)
+            if not ok_rel:
+                parser_rel_fail.append((i0, i1, st, bad[:3] + ([diff] if diff else [])))
             smap_f = lambda x, m=smap: m.get(x, -1)
             emap_f = lambda x, m=emap: m.get(x, -1)
         b1 = progs[i1]['src'].encode('utf-8')
